@@ -303,6 +303,89 @@ fn sync_while_parked_in_drain() {
     assert!(d.sync(|p| p.items.len()) > 0);
 }
 
+/// A future that wakes itself in the middle of its poll and still returns Pending (`yield_now` style).
+struct YieldNow(u32);
+impl std::future::Future for YieldNow {
+    type Output = ();
+    fn poll(mut self: std::pin::Pin<&mut Self>, cx: &mut Context<'_>) -> std::task::Poll<()> {
+        if self.0 == 0 {
+            std::task::Poll::Ready(())
+        } else {
+            self.0 -= 1;
+            cx.waker().wake_by_ref();
+            std::task::Poll::Pending
+        }
+    }
+}
+
+/// The object is dropped while an operation holding `&mut T` keeps waking itself: the runner finds the queue woken while
+/// it was running it and must neither lose the operation's place nor let the freeing job overtake it.
+fn drop_self_waking() {
+    let d = Desync::new(Payload::new());
+    d.future_desync(move |p| {
+        async move {
+            p.touch(1);
+            YieldNow(2).await;
+            p.touch(2);
+            YieldNow(1).await;
+            p.touch(3);
+        }
+        .boxed()
+    })
+    .detach();
+    d.desync(|p| p.touch(4));
+    let f = d.future_desync(move |p| {
+        async move {
+            YieldNow(1).await;
+            p.touch(5);
+            6u64
+        }
+        .boxed()
+    });
+    let h = thread::spawn(move || {
+        let mut f = f;
+        let w = noop_waker();
+        let mut cx = Context::from_waker(&w);
+        // one poll from outside (may steal the queue), then the future is abandoned
+        let _ = f.poll_unpin(&mut cx);
+        thread::yield_now();
+        drop(f);
+    });
+    thread::yield_now();
+    drop(d);
+    h.join().unwrap();
+}
+
+/// An operation waits for whichever of two events comes first; the loser keeps a waker of the operation and fires it
+/// later, when the operation (and perhaps the object) is long gone.
+fn late_waker_after_drop() {
+    let d = Desync::new(Payload::new());
+    let (tx1, rx1) = oneshot::channel::<()>();
+    let (tx2, rx2) = oneshot::channel::<()>();
+    d.future_desync(move |p| {
+        async move {
+            p.touch(1);
+            futures::future::select(rx1, rx2).await;
+            p.touch(2);
+        }
+        .boxed()
+    })
+    .detach();
+    d.desync(|p| p.touch(3));
+    let h1 = thread::spawn(move || {
+        tx1.send(()).ok();
+    });
+    let h2 = thread::spawn(move || {
+        thread::yield_now();
+        thread::yield_now();
+        tx2.send(()).ok();
+    });
+    thread::yield_now();
+    drop(d);
+    h1.join().unwrap();
+    h2.join().unwrap();
+}
+
 fn main() {
     let prog = std::env::args().nth(1).unwrap_or_default();
     // a small pool keeps the thread count (and Miri's run time) down without changing the code paths
@@ -318,6 +401,8 @@ fn main() {
         "nested_sync" => nested_sync(),
         "future_await" => future_await(),
         "sync_while_parked_in_drain" => sync_while_parked_in_drain(),
+        "drop_self_waking" => drop_self_waking(),
+        "late_waker_after_drop" => late_waker_after_drop(),
         other => {
             eprintln!("unknown program {:?}", other);
             std::process::exit(3);
